@@ -19,7 +19,7 @@ import time
 import numpy as np
 
 from runtime import oracles_C07_C09 as O
-from runtime.common import close, use_repo
+from runtime.common import close, use_repo, rot_frame
 
 RULE = ("where: every boolean array of the length bound, non-trivial when it has a True; peaks: every array of {0,1,2,3}^n x threshold "
         "x min_detection_interval, non-trivial when a run qualifies or a run is rejected for being too short; transform/detector: "
@@ -168,7 +168,7 @@ def check_detector(rec, inp):
     info = {"threshold": None, "cpts": None, "scores": None, "nt": False}
     cuts_ok = probe_cuts(X, b)
     exp = expected_scores(agg, n, b)
-    det, err = O.attempt(lambda: make_detector(inp, sc).fit(Xfit))
+    det, err = O.attempt(lambda: make_detector(inp, sc).fit(rot_frame(Xfit, 1)))
     if err is not None:
         if isinstance(err, RuntimeError) and "positive definite" in str(err):
             return info
@@ -180,7 +180,7 @@ def check_detector(rec, inp):
         return info
     th = float(det.threshold_)
     info["threshold"] = th
-    ts, err = O.attempt(lambda: det.transform_scores(X))
+    ts, err = O.attempt(lambda: det.transform_scores(rot_frame(X, 2)))
     if err is not None:
         if isinstance(err, RuntimeError) and "positive definite" in str(err):
             return info
@@ -204,7 +204,7 @@ def check_detector(rec, inp):
         return info
     if not np.isfinite(th):
         return info
-    res, err = O.attempt(lambda: det.predict(X))
+    res, err = O.attempt(lambda: det.predict(rot_frame(X, 2)))
     if err is not None:
         rec.violation(f"MovingWindow:predict:{type(err).__name__}:{name}", f"predict raised {err!r}", "C08.detector", inp)
         return info
